@@ -443,6 +443,16 @@ func (fc *fileCtx) wrapList(info *types.Info, list []ast.Stmt) {
 				k, found = k2, true
 			}
 			k.post = false
+		case *ast.DeferStmt:
+			// A deferred synchronisation or I/O call gets its scheduling point
+			// from a second defer placed after it: defers run last-in first-out,
+			// so the Yield runs immediately before the original deferred call,
+			// whose receiver and arguments are still evaluated where they were.
+			if dk, ok := classify(info, x.Call); ok {
+				fc.ins(s.End(), `; defer simrt.Yield("defer.`+dk.name+`@`+fc.site(s.Pos())+`")`, -5)
+				fc.count("defer:" + dk.name)
+			}
+			continue
 		case *ast.SelectStmt:
 			k, found = opKind{true, false, "select"}, true
 			for _, c := range x.Body.List {
@@ -544,6 +554,16 @@ func (fc *fileCtx) instrument(info *types.Info, pkg *types.Package, tick bool) {
 			if tick {
 				fc.ins(x.Body.Lbrace+1, " simrt.Tick();", 0)
 				fc.count("tick")
+			}
+		case *ast.CallExpr:
+			// runtime.GOMAXPROCS(0) (a query, not a setting) is the other way
+			// code sizes a worker pool: same seam as runtime.NumCPU()
+			if sel, ok := x.Fun.(*ast.SelectorExpr); ok && pkgOf(info, sel.X) == "runtime" && sel.Sel.Name == "GOMAXPROCS" && len(x.Args) == 1 {
+				if lit, ok := x.Args[0].(*ast.BasicLit); ok && lit.Value == "0" {
+					fc.repl(x.Pos(), x.End(), "simrt.NumCPU()")
+					touch(sel.X, "NumCPU")
+					fc.count("numcpu")
+				}
 			}
 		case *ast.SelectorExpr:
 			switch pkgOf(info, x.X) {
